@@ -8,12 +8,12 @@ POS = {
     "C04": ["Observer_dispatch.cfg", "Observer_callback.cfg"],
     "C05": ["Observer_dispatch.cfg", "Observer_callback.cfg"],
     "C06": ["Observer_lifecycle.cfg", "Observer_stoprace.cfg", "Observer_stopfirst.cfg", "Observer_doublestart.cfg", "Observer_live.cfg"],
-    "C13": ["Observer_registry.cfg", "Observer_startrace.cfg", "Observer_doublestart.cfg"],
+    "C13": ["Observer_registry.cfg", "Observer_startrace.cfg", "Observer_doublestart.cfg", "Observer_partialstart.cfg"],
 }
 NEG = {
     "C06": [("Observer_neg_D12.cfg", "C06_AllExitedAfterJoin"), ("Observer_neg_D17.cfg", "C06_AllExitedAfterJoin")],
     "C13": [("Observer_neg_D3.cfg", "C13_NoStaleHandlers"), ("Observer_neg_D10.cfg", "C13_EveryScheduledWatchRuns"),
-            ("Observer_neg_D18.cfg", "C13_ScheduledWatchHasEmitter")],
+            ("Observer_neg_D18.cfg", "C13_ScheduledWatchHasEmitter"), ("Observer_neg_D20.cfg", "C13_StartRetrySucceeds")],
 }
 
 
@@ -37,7 +37,7 @@ REPLAY = {
     "C04": ["dispatch", "callback"],
     "C05": ["dispatch", "callback"],
     "C06": ["lifecycle", "stoprace", "stopfirst", "doublestart"],
-    "C13": ["failing", "startrace", "doublestart"],
+    "C13": ["failing", "startrace", "doublestart", "partialstart"],
 }
 FULL_CFG = {"failing": "Observer_registry.cfg"}
 
